@@ -96,6 +96,28 @@ extern "C" void vh_c18_transparent() {
         nixsym_assert(threw[k] == threw[0], "scaled and unscaled request agree on success / out-of-bounds");
         if (!threw[k] && !threw[0]) nixsym_assert(off[k] == off[0] && cnt[k] == cnt[0], "scaled and unscaled request select the same elements");
     }
+    // the same four requests as multi-tags (one row of positions / extents per tag; the unit list is per dimension)
+    {
+        static const char *MU[4][2] = {{"s", "V"}, {"ms", "uV"}, {"ms", "mV"}, {nullptr, nullptr}};
+        const double F[4][2] = {{1.0, 1.0}, {1e3, 1e6}, {1e3, 1e3}, {1e3, 1e6}};
+        NDSize moff[4], mcnt[4]; bool mthrew[4] = {false, false, false, false};
+        for (int k = 0; k < 4; k += 2) {                                            // "s","V" and "ms","mV": the two with different factors per dimension
+            std::string nm = std::string("mp") + (char)('0' + k);
+            DataArray pos = b.createDataArray(nm, "t", DataType::Double, NDSize({1, 2}));
+            { double pv[2] = {p0 * F[k][0], p1 * F[k][1]}; pos.setData(DataType::Double, pv, NDSize({1, 2}), NDSize({0, 0})); }
+            MultiTag mt = b.createMultiTag(std::string("mt") + (char)('0' + k), "t", pos);
+            if (has_extent) { DataArray ex = b.createDataArray(nm + "e", "t", DataType::Double, NDSize({1, 2})); double ev[2] = {e0 * F[k][0], e1 * F[k][1]}; ex.setData(DataType::Double, ev, NDSize({1, 2}), NDSize({0, 0})); mt.extents(ex); }
+            if (MU[k][0]) mt.units({MU[k][0], MU[k][1]});
+            mt.addReference(a);
+            try { DataView dv = util::taggedData(mt, (ndsize_t)0, a, match); mcnt[k] = dv.dataExtent(); std::vector<double> got((size_t)mcnt[k].nelms()); dv.getData(DataType::Double, got.data(), mcnt[k], NDSize({0, 0})); moff[k] = NDSize({(ndsize_t)got[0] / 10, (ndsize_t)got[0] % 10}); }
+            catch (const std::exception &) { mthrew[k] = true; }
+        }
+        for (int k = 2; k < 4; k += 2) {
+            nixsym_assert(mthrew[k] == mthrew[0], "multi-tag: scaled and unscaled request agree on success / out-of-bounds");
+            if (!mthrew[k] && !mthrew[0]) nixsym_assert(moff[k] == moff[0] && mcnt[k] == mcnt[0], "multi-tag: scaled and unscaled request select the same elements");
+        }
+        nixsym_assert(mthrew[0] == threw[0] && (threw[0] || (moff[0] == off[0] && mcnt[0] == cnt[0])), "a multi-tag row selects what the tag with the same position, extent and units selects");
+    }
     // slices with units
     {
         bool t1 = false, t2 = false; NDSize c1, c2;
